@@ -195,4 +195,6 @@ func runC01(c *run.Ctx) {
 			}
 		}
 	}
+	// requests answered, the hierarchy extended by later loads (no new type), the request judged over the final schema
+	stagedHierarchy(c, "c01", c.N(120, 2000))
 }
